@@ -128,6 +128,14 @@ static void emit_callable (GICallableInfo *ci)
   ks ("transfer", transfer_name (g_callable_info_get_caller_owns (ci)));
   kb ("nullable", g_callable_info_may_return_null (ci));
   kb ("skip", g_callable_info_skip_return (ci));
+  {
+    GIAttributeIter it = { 0, };
+    char *an, *av;
+    key ("attributes"); putchar ('{');
+    while (g_callable_info_iterate_return_attributes (ci, &it, &an, &av))
+      { key (an); jstr (av); putchar (','); }
+    endobj (); putchar (',');
+  }
   key ("type"); emit_type (rt); putchar (',');
   endobj (); putchar (',');
   g_base_info_unref (rt);
@@ -181,6 +189,7 @@ static void emit_field (GIFieldInfo *f)
   kb ("writable", fl & GI_FIELD_IS_WRITABLE);
   ki ("bits", g_field_info_get_size (f));
   ki ("offset", g_field_info_get_offset (f));
+  emit_attrs (f);
   key ("type"); emit_type (t); putchar (',');
   g_base_info_unref (t);
   endobj ();
@@ -197,6 +206,7 @@ static void emit_property (GIPropertyInfo *p)
   putchar ('{');
   ks ("name", g_base_info_get_name (p));
   kb ("deprecated", g_base_info_is_deprecated (p));
+  emit_attrs (p);
   kb ("readable", fl & G_PARAM_READABLE);
   kb ("writable", fl & G_PARAM_WRITABLE);
   kb ("construct", fl & G_PARAM_CONSTRUCT);
@@ -217,6 +227,7 @@ static void emit_signal (GISignalInfo *s)
   putchar ('{');
   ks ("name", g_base_info_get_name (s));
   kb ("deprecated", g_base_info_is_deprecated (s));
+  emit_attrs (s);
   kb ("run_first", fl & G_SIGNAL_RUN_FIRST);
   kb ("run_last", fl & G_SIGNAL_RUN_LAST);
   kb ("run_cleanup", fl & G_SIGNAL_RUN_CLEANUP);
@@ -234,6 +245,7 @@ static void emit_vfunc (GIVFuncInfo *v)
   GIFunctionInfo *inv = g_vfunc_info_get_invoker (v);
   putchar ('{');
   ks ("name", g_base_info_get_name (v));
+  emit_attrs (v);
   kb ("must_chain_up", fl & GI_VFUNC_MUST_CHAIN_UP);
   kb ("must_override", fl & GI_VFUNC_MUST_OVERRIDE);
   kb ("must_not_override", fl & GI_VFUNC_MUST_NOT_OVERRIDE);
